@@ -233,6 +233,9 @@ theorem queue_put_at_tail (cfg : Cfg) (s s' : State) (q b : Nat) (acc : Bool) (h
 
 /-! ### the decision logic of the model is the one in the source (regenerated on every run by go/extract/writer) -/
 
+/-- every piece of decision logic the theorems below are stated over could be read from the source -/
+theorem source_logic_translated : Gen.untranslatedPieces = [] := by decide
+
 /-- **full_matches_source** — the model's `Batch.full` is `(*writeBatch).full` as it stands in writer.go -/
 theorem full_matches_source (cfg : Cfg) (B : Batch) :
     Gen.batchFull B.msgs.length B.bytes cfg.batchSize cfg.batchBytes = B.full cfg := by
